@@ -6,6 +6,9 @@
 (*   scalar    {id, t, args, a, b, err, rep, der, res}    identity residuals        *)
 (*   dispatch  {id, t, q, sa, sb, pairs, obs}             argument-shape dispatch   *)
 (*   copy      {id, t, args, chain, err, rep0, steps}     copy / pickle chains      *)
+(*   scale     {id, t, q, form, n, block, obs}            large arrays via the      *)
+(*                                                        concatenation law         *)
+(*   threads   {id, t, q, form, nthreads, mism}           concurrent = sequential   *)
 (* Rejected records are printed with the names of the failing clauses.             *)
 EXTENDS Cosmo, Json, IOUtils
 
@@ -26,6 +29,8 @@ FailingRec(r) ==
       [] r.t = "scalar"   -> CFailScalar(r)
       [] r.t = "dispatch" -> CFailDispatch(r)
       [] r.t = "copy"     -> CFailCopy(r)
+      [] r.t = "scale"    -> CFailScale(r)
+      [] r.t = "threads"  -> CFailThreads(r)
       [] OTHER            -> {"harness_unknown_record_type"}
 
 Check == tid > 0 =>
